@@ -31,3 +31,84 @@ Inductive uex :=
 | UAdd (a b : uex) | USub (a b : uex) | UMul (a b : uex) | UDiv (a b : uex)
 | UNeg (a : uex)
 | UPow (a : uex) (n : positive).
+
+(* ---------------------------------------------------------------------------
+   Syntax of the REGENERATED derivative rules (Gen/Derivatives.v, emitted by
+   translate/derivatives.py from odl/operator/operator.py, pspace_ops.py,
+   default_ops.py): each `derivative(self, x)` body as an expression over the
+   fields of `self`. *)
+Inductive dsub := SLeft | SRight | SOperator | SFunctional.      (* self.left ... *)
+Inductive dpt :=
+| PX                      (* x *)
+| PAt (s : dsub)          (* self.<s>(x) *)
+| PScalX                  (* self.scalar * x *)
+| PVecX.                  (* self.vector * x *)
+Inductive dcond := CSelfLin | CSubLin (s : dsub).                (* self.is_linear, self.<s>.is_linear *)
+Inductive dctor2 := KSum | KComp.                                (* OperatorSum(a, b, ..), OperatorComp(a, b, ..) *)
+Inductive dex :=
+| DSelf                                  (* self *)
+| DSub (s : dsub)                        (* self.<s> *)
+| DDeriv (s : dsub) (p : dpt)            (* self.<s>.derivative(<p>) *)
+| DCtor2 (k : dctor2) (a b : dex)
+| DFLVec (a : dex)                       (* FunctionalLeftVectorMult(a, self.vector) *)
+| DScalMul (e : dex)                     (* self.scalar * e *)
+| DMulScal (e : dex)                     (* e * self.scalar *)
+| DVecMul (e : dex)                      (* self.vector * e *)
+| DMulVec (e : dex)                      (* e * self.vector *)
+| DValMul (s : dsub) (e : dex)           (* self.<s>(x) * e *)
+| DAdd (a b : dex)                       (* a + b *)
+| DIf (c : dcond) (t e : dex).           (* if c: t  else: e *)
+
+(* the `linear=` argument handed to Operator.__init__ *)
+Inductive linex := LinBoth (a b : dsub) | LinOf (s : dsub) | LinFalse.
+
+Inductive oclass := CSum | CVecSum | CComp | CPProd | CLScal | CRScal | CFLVec | CLVec | CRVec.
+
+(* block operators: which part of the point each operand is differentiated at *)
+Inductive bpt :=
+| BSame                   (* op.derivative(x) for op in self.operators *)
+| BZip                    (* op.derivative(xi) for op, xi in zip(self.operators, x) *)
+| BCol.                   (* op.derivative(x[col]) for op, col in zip(self.ops.data, self.ops.col) *)
+Record brule := { b_linself : bool;     (* `if self.is_linear: return self` first *)
+                  b_pt : bpt }.
+Inductive bclass := CBroadcast | CReduction | CDiagonal | CPSO.
+
+(* leaf operators of default_ops.py with a closed-form derivative *)
+Inductive lnex := LNNorm | LNDist.       (* point.norm(),  self.vector.dist(point) *)
+Inductive lvex :=
+| LVPoint                                (* point *)
+| LVDiff                                 (* point - self.vector *)
+| LVPowM1                                (* point ** (self.exponent - 1) *)
+| LVDiv (v : lvex) (n : lnex).           (* v / n *)
+Inductive lrule :=
+| LRSelf                                 (* return self *)
+| LRLinSelfElseRaise                     (* Operator.derivative: self if linear, else raise *)
+| LRZero                                 (* ZeroOperator(domain=self.domain, range=self.range) *)
+| LRExpMultiply (v : lvex)               (* self.exponent * MultiplyOperator(v, domain=.., range=..) *)
+| LRInner (n : lnex) (v : lvex).         (* if n == 0: raise ValueError ; InnerProductOperator(v) *)
+Inductive lclass := KPower | KNorm | KDist | KConstant | KRealPart | KImagPart | KBase.
+
+(* ---------------------------------------------------------------------------
+   Syntax of the REGENERATED gradient rules of the functional arithmetic
+   (Gen/Gradients.v, emitted by translate/gradients.py from
+   odl/solvers/functional/functional.py): each `gradient` property as an
+   operator expression over the fields of `self`, resp. the `_call(self, x)` of
+   the locally defined gradient class as a value expression. *)
+Inductive gsub := GLeft | GRight | GFunctional | GOperator | GDividend | GDivisor.
+Inductive kex :=                        (* scalar factors in _call bodies *)
+| KVal (s : gsub)                       (* func.<s>(x) *)
+| KInvVal (s : gsub)                    (* 1 / <s>x *)
+| KNegOverSq (a b : gsub).              (* -<a>x / <b>x ** 2 *)
+Inductive gop :=
+| GGrad (s : gsub)                      (* self.<s>.gradient  (as an operator; in a _call: .gradient(x)) *)
+| GScalL (e : gop)                      (* self.scalar * e *)
+| GScalR (e : gop)                      (* e * self.scalar *)
+| GVecL (e : gop)                       (* self.vector * e *)
+| GVecR (e : gop)                       (* e * self.vector *)
+| GAdd (a b : gop)                      (* a + b *)
+| GShift (e : gop)                      (* e * (IdentityOperator(self.domain) - self.translation) *)
+| GTwoQuadId                            (* 2 * self.quadratic_coeff * IdentityOperator(self.domain) *)
+| GConstLinTerm                         (* ConstantOperator(self.linear_term) *)
+| GKMul (k : kex) (e : gop)             (* k * e   (value level) *)
+| GAdjDeriv (f op : gsub).              (* op.derivative(x).adjoint(func.gradient(op(x))) *)
+Inductive fclass := FCLScal | FCRScal | FCComp | FCRVec | FCSum | FCTransl | FCQP | FCProd | FCQuot.
